@@ -245,7 +245,7 @@ def h17_nested(S):
     from repid.data._key import RoutingKey
     import repid.data._parameters as P
 
-    which = S.pick("scenario", 10)
+    which = S.pick("scenario", 12)
     log = []
     S.tag("scenario", which)
 
@@ -277,6 +277,68 @@ def h17_nested(S):
                 await c.message_broker.queue_declare("default")
                 await c.message_broker.enqueue(RoutingKey(topic="job", queue="default", id_=n), "p", None)
             log.extend(hears)
+            return
+        elif which == 10:
+            # a tracing-style subscriber that sets a context variable: the operation runs as it would without subscribers
+            import contextvars
+            from repid import InMemoryMessageBroker
+            from repid._processor import _Processor
+            trace = contextvars.ContextVar("trace", default="unset")
+            seen = {}
+            for with_sub in (False, True):
+                conn = Connection(InMemoryMessageBroker())
+                if with_sub:
+                    async def before_actor_run(key):
+                        trace.set("set-by-subscriber")
+                    conn.middleware.add_subscriber(before_actor_run)
+
+                async def job():
+                    return trace.get()
+
+                res = await _Processor(conn).actor_run(mk_actor(job), RoutingKey(topic="job", queue="default", id_="j1"),
+                                                       P.Parameters(timestamp=P.datetime.now()), "", conn)
+                seen[with_sub] = (res.success, res.data)
+            log.append(seen)
+            return
+        elif which == 11:
+            # a broker subclass whose enqueue carries an ordinary functools.wraps decorator: signals still name the arguments
+            import functools
+            from repid import InMemoryMessageBroker
+
+            def audited(fn):
+                @functools.wraps(fn)
+                async def wrapper(*args, **kwargs):
+                    return await fn(*args, **kwargs)
+                return wrapper
+
+            class AuditedBroker(InMemoryMessageBroker):
+                @audited
+                async def enqueue(self, key, payload="", params=None):
+                    return await super().enqueue(key, payload, params)
+
+                @audited
+                async def queue_declare(self, queue_name):
+                    return await super().queue_declare(queue_name)
+
+            conn = Connection(AuditedBroker())
+            heard = []
+
+            async def before_queue_declare(queue_name=None):
+                heard.append(("before_queue_declare", queue_name))
+
+            async def after_enqueue(key=None, payload=None, result="missing"):
+                heard.append(("after_enqueue", getattr(key, "id_", None), payload))
+
+            conn.middleware.add_subscriber(before_queue_declare)
+            conn.middleware.add_subscriber(after_enqueue)
+            positional = S.flag("called_positionally")
+            if positional:
+                await conn.message_broker.queue_declare("myqueue")
+                await conn.message_broker.enqueue(RoutingKey(topic="job", queue="myqueue", id_="e1"), "p", None)
+            else:
+                await conn.message_broker.queue_declare(queue_name="myqueue")
+                await conn.message_broker.enqueue(key=RoutingKey(topic="job", queue="myqueue", id_="e1"), payload="p", params=None)
+            log.extend(heard)
             return
         elif which == 9:
             # a connection that was closed and opened again (two `magic(auto_disconnect=True)` blocks, a reconnect after an outage)
@@ -432,7 +494,11 @@ def h17_nested(S):
 
     run_async(main, clock=PinnedClock(T0))
     S.cover("nested")
-    if which == 9:
+    if which == 10:
+        S.check("same-result-as-without-subscribers", log[0][True] == log[0][False], info=f"without subscribers {log[0][False]}, with a subscriber that sets a context variable {log[0][True]}")
+    elif which == 11:
+        S.check("signals-carry-arguments-by-name", log == [("before_queue_declare", "myqueue"), ("after_enqueue", "e1", "p")], info=str(log))
+    elif which == 9:
         S.check("signals-reach-the-subscribers-of-a-reopened-connection", log == [("before_enqueue", "e1"), ("after_store_bucket", "b1")],
                 info=f"after closing and reopening the connection the subscribers heard {log}")
     elif which == 0:
